@@ -179,6 +179,53 @@ PtrSet(h, c) ==
                  IN IF ~r.ok THEN Bad(h)
                     ELSE [r EXCEPT !.h.n = IF par \in DOMAIN r.h.n THEN [r.h.n EXCEPT ![par].held = @ - 1] ELSE r.h.n]
 
+\* json_patch_apply in place (*base = a) with a one-operation patch: "remove" (c.path) or "move" (c.from -> c.path);
+\* paths are non-empty token sequences (the whole-document forms consume the caller's reference and are left out).
+\* remove releases the container's reference to the value; move relocates the SAME node (its identity, count and
+\* destructor are untouched) and releases a member it replaces.  A move whose value was already taken out when
+\* placing it fails releases the value (the document is documented to be left partially modified on failure).
+Front(s) == SubSeq(s, 1, Len(s) - 1)
+Last(s) == s[Len(s)]
+SlotOf(h, par, tk) == LET nd == h.n[par] IN
+                      IF nd.kind = "o" THEN KeyPos(nd, TokKey(tk))
+                      ELSE IF nd.kind = "a" /\ tk.t = "i" /\ tk.v < Len(nd.kids) THEN tk.v + 1 ELSE 0
+CutAt(s, p) == SubSeq(s, 1, p - 1) \o SubSeq(s, p + 1, Len(s))
+Unlink(n, par, p) == IF n[par].kind = "o" THEN [n EXCEPT ![par].keys = CutAt(@, p), ![par].kids = CutAt(@, p)]
+                     ELSE [n EXCEPT ![par].kids = CutAt(@, p)]
+IsProperPrefix(a, b) == Len(a) < Len(b) /\ SubSeq(b, 1, Len(a)) = a
+PatchRemove(h, c) ==
+    IF ~Holds(h, c.a) \/ Len(c.path) = 0 THEN Bad(h)
+    ELSE LET par == Walk(h, c.a, Front(c.path)) IN
+         IF par <= 0 THEN Res(h, -1, {}, {})
+         ELSE LET p == SlotOf(h, par, Last(c.path)) IN
+              IF p = 0 THEN Res(h, -1, {}, {})
+              ELSE LET kid == IF "patch_remove_no_put" \in MUT THEN 0 ELSE h.n[par].kids[p]
+                   IN Out(h, Rel([n |-> Unlink(h.n, par, p), dead |-> {}, fired |-> {}], kid), 0)
+PatchMove(h, c) ==
+    IF ~Holds(h, c.a) \/ Len(c.path) = 0 \/ Len(c.from) = 0 THEN Bad(h)
+    ELSE IF IsProperPrefix(c.from, c.path) THEN Res(h, -1, {}, {})
+    ELSE LET fpar == Walk(h, c.a, Front(c.from)) IN
+         IF fpar <= 0 THEN Res(h, -1, {}, {})
+         ELSE LET fp == SlotOf(h, fpar, Last(c.from)) IN
+              IF fp = 0 THEN Res(h, -1, {}, {})
+              ELSE IF c.from = c.path THEN Res(h, 0, {}, {})
+              ELSE LET x == h.n[fpar].kids[fp]
+                       h1 == [h EXCEPT !.n = Unlink(h.n, fpar, fp)]            \* the operation now owns x
+                       tpar == Walk(h1, c.a, Front(c.path))
+                       tk == Last(c.path)
+                       lose == Out(h, Rel([n |-> h1.n, dead |-> {}, fired |-> {}], x), -1)
+                   IN IF tpar <= 0 THEN lose
+                      ELSE IF x # 0 /\ tpar \in Reach(h1, x) THEN Bad(h)     \* (x also linked elsewhere: the client built a DAG and now closes a cycle)
+                      ELSE LET nd == h1.n[tpar] IN
+                           IF nd.kind = "o" THEN
+                               LET k == TokKey(tk)  p == KeyPos(nd, k) IN
+                               IF p = 0 THEN Res([h EXCEPT !.n = [h1.n EXCEPT ![tpar].keys = Append(nd.keys, k), ![tpar].kids = Append(nd.kids, x)]], 0, {}, {})
+                               ELSE Out(h, Rel([n |-> [h1.n EXCEPT ![tpar].kids[p] = x], dead |-> {}, fired |-> {}], nd.kids[p]), 0)
+                           ELSE IF nd.kind = "a" /\ tk.t = "-" THEN Res([h EXCEPT !.n = [h1.n EXCEPT ![tpar].kids = Append(nd.kids, x)]], 0, {}, {})
+                           ELSE IF nd.kind = "a" /\ tk.t = "i" /\ tk.v <= Len(nd.kids)
+                                THEN Res([h EXCEPT !.n = [h1.n EXCEPT ![tpar].kids = SubSeq(nd.kids, 1, tk.v) \o <<x>> \o SubSeq(nd.kids, tk.v + 1, Len(nd.kids))]], 0, {}, {})
+                           ELSE lose
+
 Apply(h, c) ==
     CASE c.op = "new" -> New(h, c)
       [] c.op = "get" -> Get(h, c)
@@ -193,6 +240,8 @@ Apply(h, c) ==
       [] c.op = "setud" -> SetUd(h, c)
       [] c.op = "copy" -> Copy(h, c)
       [] c.op = "ptrset" -> PtrSet(h, c)
+      [] c.op = "premove" -> PatchRemove(h, c)
+      [] c.op = "pmove" -> PatchMove(h, c)
       [] OTHER -> Bad(h)
 
 \* the recorded call c (with observed ret / dead / fired as sequences) is a step from h
